@@ -71,6 +71,31 @@ Conf_EDS(s, e) ==
                       /\ d.strat.canary => (d2.hasCanary = cact /\ (cact => d2.canaryRS = u.id))
                       /\ d2.tmpl = (IF failed /\ HasRS(s, cur) THEN RSOf(s, cur).tmpl ELSE d.tmpl)
 
+-----------------------------------------------------------------------------
+(* C06 - auto-fail and auto-pause fire exactly on their documented triggers.  Reference: Ctrl!Can, the transcription *)
+(* of manageCanaryStatus / manageCanaryPodFailures.  Stated here (not in Props.tla) because it needs Ctrl.           *)
+
+C06_Step(s, e) ==
+    (IsERS(s, e) /\ HasRS(e.state, e.rs) /\ FullSync(e) /\ AllOK(StatusWrites(e, "ERS")) /\ ~e.res.panic) =>
+      LET r == RSOf(s, e.rs)  d == EDSOf(s, r.owner)  r2 == RSOf(e.state, e.rs) IN
+        (Role(d, r) = "canary" /\ d.defaulted /\ d.strat.canary) =>
+          \E kept \in KeptChoices(s, d, r, "canary", {}) :
+            LET c == Can(s, d, r, kept)
+                evaluable == { n \in CNodes(d) : n \in DOMAIN kept /\ kept[n] # NoPod /\ ~kept[n].term /\ PodUpToDate(s, d, r, kept[n]) }
+            IN /\ NT(<<"C06", Cardinality(evaluable), r.conds.CanaryFailed.true, r2.conds.CanaryFailed.true, r.conds.CanaryPaused.true, r2.conds.CanaryPaused.true,
+                       d.strat.apEnabled, d.strat.afEnabled, d.cPaused, d.cUnpaused>>)
+               \* failed: exactly when (already failed) or (auto-fail enabled and one of the three triggers)
+               /\ r2.conds.CanaryFailed.true = c.failed
+               \* once true it stays true while the replica set is the canary
+               /\ r.conds.CanaryFailed.true => r2.conds.CanaryFailed.true
+               \* paused: one of the outcomes of the documented rule (unpause overrides pausing, never failing)
+               /\ (evaluable # {}) => r2.conds.CanaryPaused.true \in c.pausedSet
+               \* disabled features never fire
+               /\ (~d.strat.afEnabled /\ ~r.conds.CanaryFailed.true) => ~r2.conds.CanaryFailed.true
+               /\ (~d.strat.apEnabled /\ ~r.conds.CanaryPaused.true /\ ~d.cPaused) => ~r2.conds.CanaryPaused.true
+               \* while paused or failed no further canary pod is created
+               /\ (r2.conds.CanaryFailed.true \/ r2.conds.CanaryPaused.true) => PodCreates(e) = {}
+
 Conf_Step(s, e) ==
     CASE IsERS(s, e) /\ EDSOf(s, RSOf(s, e.rs).owner).defaulted /\ GoodStrat(EDSOf(s, RSOf(s, e.rs).owner)) /\ ~e.res.panic
               /\ (\A w \in Writes(e) : w.inj = "") -> Conf_ERS(s, e)
